@@ -1050,7 +1050,7 @@ func (t *TraefikOidc) handleCallback(rw http.ResponseWriter, req *http.Request, 
 
 	// Retrieve original path *before* saving, as save might clear it if Clear was called concurrently
 	redirectPath := "/"
-	if incomingPath := session.GetIncomingPath(); incomingPath != "" && incomingPath != t.redirURLPath {
+	if incomingPath := session.GetIncomingPath(); incomingPath != "" && incomingPath != t.redirURLPath && isLocalRedirectTarget(incomingPath) {
 		redirectPath = incomingPath
 	}
 	session.SetIncomingPath("") // Clear incoming path after retrieving it
@@ -1064,6 +1064,16 @@ func (t *TraefikOidc) handleCallback(rw http.ResponseWriter, req *http.Request, 
 	// Redirect to original path or root
 	t.logger.Debugf("Callback successful, redirecting to %s", redirectPath)
 	http.Redirect(rw, req, redirectPath, http.StatusFound)
+}
+
+// isLocalRedirectTarget reports whether target is an absolute path on the
+// application's own origin: it must start with a single '/' that is not followed
+// by '/' or '\\', which browsers treat as the start of an authority.
+func isLocalRedirectTarget(target string) bool {
+	if !strings.HasPrefix(target, "/") {
+		return false
+	}
+	return !strings.HasPrefix(target, "//") && !strings.HasPrefix(target, "/\\")
 }
 
 // determineExcludedURL checks if the provided request path matches any of the configured excluded URL prefixes.
@@ -1277,7 +1287,11 @@ func (t *TraefikOidc) defaultInitiateAuthentication(rw http.ResponseWriter, req 
 		session.SetCodeVerifier(codeVerifier)
 	}
 	// Store the original path the user was trying to access
-	session.SetIncomingPath(req.URL.RequestURI())
+	incomingPath := req.URL.RequestURI()
+	if !isLocalRedirectTarget(incomingPath) {
+		incomingPath = "/"
+	}
+	session.SetIncomingPath(incomingPath)
 	t.logger.Debugf("Storing incoming path: %s", req.URL.RequestURI())
 
 	// Save the session (to store CSRF, Nonce, etc.)
